@@ -25,3 +25,18 @@ Theorem binary_roundtrip : forall l bits, 0 <= bits -> 0 <= l < 2 ^ bits ->
   exists s, ModelBinary.num2binary l bits = Ok s /\ ModelBinary.binary2num s = l.
 Proof. exact ProofsBinary.binary_roundtrip. Qed.
 Print Assumptions binary_roundtrip.
+
+(* TrueType instruction programs (ttProgram.py): whatever Program.toXML writes for a program — the disassembly with every push
+   instruction kept as it is — Program.fromXML assembles back into exactly the same bytecode. For every byte string on which the
+   disassembler succeeds (where it fails — a truncated push, a zero count — toXML writes a hex dump instead, which is lossless by
+   hex_roundtrip), over the instruction tables regenerated from the source on every run. *)
+From FV Require C03.ModelProgram C03.ProofsProgram.
+Theorem program_roundtrip : forall bs toks, Forall ProofsProgram.byte bs ->
+  ModelProgram.disassemble bs = Ok toks -> ModelProgram.assemble toks = Ok bs.
+Proof. exact ProofsProgram.program_roundtrip. Qed.
+Print Assumptions program_roundtrip.
+
+(* the disassembler model's fuel (one unit per byte) always suffices *)
+Theorem disassemble_fuel_suffices : forall bs, Forall ProofsProgram.byte bs -> ModelProgram.disassemble bs <> Err OutOfFuel.
+Proof. exact ProofsProgram.disassemble_fuel_suffices. Qed.
+Print Assumptions disassemble_fuel_suffices.
